@@ -51,6 +51,9 @@ func c06Forms() []c06Form {
 		{"list-empty", "a{}", 0}, {"list-ints", "a2{12}", 0}, {"list-strs", "a2{uaub}", 0}, {"list-null", "a1{n}", 0}, {"list-mixed", "a2{1ua}", 0},
 		{"list-str-ref", "a2{s5\"hello\"%R1;}", 0}, {"list-bytes-ref", "a2{b2\"ab\"%R1;}", 0}, {"list-self-ref-str", "a3{s2\"xy\"s2\"zw\"%R1;}", 0},
 		{"list-of-lists", "a2{a2{12}a1{3}}", 0}, {"list-of-maps", "a2{m1{ua1}m2{ub2uc3}}", 0}, {"list-of-3-lists", "a3{a1{7}a{}a2{89}}", 0},
+		{"list-bytes-list", "a2{b2\"ab\"a1{1}}", 0}, {"list-str-bytes", "a2{s2\"ab\"b2\"cd\"}", 0}, {"list-int-real", "a2{1d1.5;}", 0},
+		{"list-lists-of-kinds", "a3{a1{1}a1{ua}a1{d1.5;}}", 0}, {"list-bytes-strs", "a2{b2\"ab\"a2{uaub}}", 0},
+		{"list-list-map", "a2{a1{1}m1{ua1}}", 0}, {"list-maps", "a2{m1{ua1}m1{1ua}}", 0},
 		{"map-empty", "m{}", 0}, {"map-str-int", "m1{ua1}", 0}, {"map-int-str", "m1{1ua}", 0}, {"map-two", "m2{ua1ub2}", 0},
 		{"map-as-plain", "m2{ua1ubux}", 0}, {"map-as-plain-extra", "m3{ua1ubuxuzt}", 0},
 		{"obj-plain", "c5\"Plain\"3{uaubuc}o0{1uxd1.5;}", 0},
@@ -104,6 +107,8 @@ func c06Dests() []c06Dest {
 	add("time", time.Time{})
 	add("guid", uuid.UUID{})
 	d = append(d, c06Dest{"iface", reflect.TypeOf((*interface{})(nil)).Elem()})
+	// interface{} with the non-default container settings ListTypeSlice and StructTypeValue
+	d = append(d, c06Dest{"iface_opts", reflect.TypeOf((*interface{})(nil)).Elem()})
 	add("slice_int", []int(nil))
 	add("slice_string", []string(nil))
 	add("slice_iface", []interface{}(nil))
@@ -119,7 +124,9 @@ func c06Dests() []c06Dest {
 	return d
 }
 
-var c06Positions = []string{"top", "read", "field", "ptrfield", "elem", "mapval", "ptr", "ptrptr", "viaref"}
+var c06Positions = []string{"top", "read", "field", "ptrfield", "elem", "mapval", "ptr", "ptrptr", "viaref", "manyreader"}
+
+const c06Many = 40 // position manyreader: this many copies of the form in one list, read through a reader in small pieces
 
 // c06Referable: the form is one reference-counted item that can be the target of a later reference
 // (position viaref: the form is first read into an interface{}, then a reference to it into the
@@ -148,6 +155,8 @@ func c06Render(body string, pos string) []byte {
 	case "viaref":
 		// the map is item 0, the form item 1
 		pre, post, base = "m2{ua", "ubr1;}", 1
+	case "manyreader":
+		return []byte(fmt.Sprintf("a%d{%s}", c06Many, strings.Repeat(body, c06Many)))
 	}
 	out := body
 	for k := 1; k <= 3; k++ {
@@ -250,6 +259,12 @@ func c06One(t *tr.Writer, form c06Form, dest c06Dest, pos string) {
 		target = reflect.PtrTo(dest.T)
 	case "ptrptr":
 		target = reflect.PtrTo(reflect.PtrTo(dest.T))
+	case "manyreader":
+		// (forms with references or class definitions cannot simply be repeated)
+		if strings.Contains(form.Body, "%R") || strings.Contains(form.Body, "c") && strings.Contains(form.Body, "o0{") {
+			return
+		}
+		target = reflect.SliceOf(dest.T)
 	case "viaref":
 		if !c06Referable(form.Body) {
 			return
@@ -270,6 +285,16 @@ func c06One(t *tr.Writer, form c06Form, dest c06Dest, pos string) {
 			}
 		}()
 		dec := hio.NewDecoder(b).Simple(false)
+		if pos == "manyreader" {
+			plan := []int{}
+			for x := 0; x < len(b); x += 7 {
+				plan = append(plan, 7)
+			}
+			dec = hio.NewDecoderFromReader(&chunkReader{b: b, plan: plan}).Simple(false)
+		}
+		if dest.Name == "iface_opts" {
+			dec.ListType, dec.StructType = hio.ListTypeSlice, hio.StructTypeValue
+		}
 		if pos == "read" {
 			r := dec.Read(dest.T)
 			x := reflect.New(reflect.TypeOf((*interface{})(nil)).Elem()).Elem()
@@ -299,6 +324,21 @@ func c06One(t *tr.Writer, form c06Form, dest c06Dest, pos string) {
 			if got.Len() == 1 {
 				got = got.Index(0)
 			} else {
+				got = reflect.Value{}
+			}
+		case "manyreader":
+			// all copies must have come out alike: the first that differs from the first, else the first
+			if got.Len() == c06Many {
+				first := fmt.Sprintf("%#v", fmtx.AbsValue(got.Index(0)))
+				pick := got.Index(0)
+				for i := 1; i < c06Many; i++ {
+					if fmt.Sprintf("%#v", fmtx.AbsValue(got.Index(i))) != first {
+						pick = got.Index(i)
+						break
+					}
+				}
+				got = pick
+			} else if errs == "none" {
 				got = reflect.Value{}
 			}
 		case "mapval":
